@@ -320,7 +320,7 @@ impl LevelManifest {
 		})
 	}
 
-	fn validate_table_sequence_numbers(level_idx: u8, tables: &[Arc<Table>]) -> Result<()> {
+	fn validate_table_sequence_numbers(_level_idx: u8, tables: &[Arc<Table>]) -> Result<()> {
 		// Basic sanity check for all tables
 		for table in tables {
 			// Ensure both sequence numbers exist (they should always be set together)
@@ -350,27 +350,10 @@ impl LevelManifest {
 			}
 		}
 
-		// If we have multiple tables, check sequence continuity across all tables
-		if tables.len() > 1 {
-			for i in 0..tables.len() - 1 {
-				let current = &tables[i];
-				let next = &tables[i + 1];
-
-				// Check if sequence numbers maintain continuity
-				if let (Some(next_smallest), Some(current_largest)) =
-					(next.meta.smallest_seq_num, current.meta.largest_seq_num)
-				{
-					if next_smallest <= current_largest {
-						return Err(Error::LoadManifestFail(format!(
-							"Level {} tables have overlapping sequence numbers: Table {} ({:?}-{:?}) and Table {} ({:?}-{:?})",
-							level_idx,
-							current.id, current.meta.smallest_seq_num, current.meta.largest_seq_num,
-							next.id, next.meta.smallest_seq_num, next.meta.largest_seq_num
-						)));
-					}
-				}
-			}
-		}
+		// No ordering of sequence numbers ACROSS the tables of a level is required:
+		// tables on level 1+ are disjoint in key range and sorted by key, and the
+		// order in which their key ranges were compacted into the level is
+		// arbitrary (compacting keys a-c after keys m-z puts the newer table first).
 
 		Ok(())
 	}
